@@ -481,6 +481,9 @@ package leader
 //@   on store kvElection.ctx set e.stopped = false
 //@   ensures C19+C09.refused_start_has_no_effect: result == ErrAlreadyStarted ==> calls(cancel) == 0 && scalls(attemptAcquire) == 0
 //@   ensures C09+C06.start_spawns_one_round: result == nil ==> scalls(attemptAcquire) == 1
+//@   ghost candSet Bool = false
+//@   on store kvElection.state as s when s.value == "CANDIDATE" set candSet = true
+//@   ensures C06+C18+C09.an_accepted_start_is_a_candidate: result == nil ==> candSet
 //@   on call ConnectionMonitor.OnDisconnect as c assert C11.wires_disconnect_handler: isfunc(c.arg0, "disconnectHandler.handleDisconnect")
 //@   on call ConnectionMonitor.OnReconnect as c assert C11.wires_reconnect_handler: isfunc(c.arg0, "kvElection.handleReconnect")
 //@   ensures C11.monitor_wired: result == nil && e.connectionMonitor != nil ==> calls(ConnectionMonitor.Start) == 1 && calls(ConnectionMonitor.OnDisconnect) == 1 && calls(ConnectionMonitor.OnReconnect) == 1
@@ -1051,6 +1054,14 @@ package leader
 //@   on backedge 0 assert C06.periodic_check_when_follower: tick ==> (leaderSeen || checked)
 //@   on backedge 0 set tick = false
 //@   loop 0 invariant C06.periodic_check_armed: tickerArmed && !tick && onTrackedGoroutine
+//@   ghost gotEntry Bool = false
+//@   ghost handledEntry Bool = false
+//@   on recv Watcher.Updates as r set gotEntry = r.ok
+//@   on recv Watcher.Updates set handledEntry = false
+//@   on call handleWatchEvent set handledEntry = true
+//@   on backedge 0 assert C10+C06+C07+C18.every_delivered_change_is_handled: gotEntry ==> handledEntry
+//@   on backedge 0 set gotEntry = false
+//@   loop 0 invariant C10.no_entry_left_over: !gotEntry
 //@   on return assert C06+C09.loop_ends_only_on_cancel: sawDone
 //@   ghost watchObtained Bool = false
 //@   on ret KeyValue.Watch as w set watchObtained = w.result1 == nil
